@@ -291,9 +291,26 @@ def literal_loop_envs(loop, resolver=None):
     (single-assignment local / module-level constant)"""
     it = loop.iter
     hops = 0
+    view = None
+    if isinstance(it, ast.Call) and not it.args and not it.keywords \
+            and isinstance(it.func, ast.Attribute) \
+            and it.func.attr in ("items", "keys", "values"):
+        view, it = it.func.attr, it.func.value
     while isinstance(it, ast.Name) and resolver is not None and hops < 4:
         it = resolver(it.id)
         hops += 1
+    if isinstance(it, ast.Dict) and all(k is not None for k in it.keys):
+        # a literal mapping: iterate keys, values or (key, value) pairs
+        if view == "items":
+            elts = [ast.Tuple(elts=[k, v], ctx=ast.Load())
+                    for k, v in zip(it.keys, it.values)]
+        elif view == "values":
+            elts = list(it.values)
+        else:
+            elts = list(it.keys)
+        it = ast.List(elts=elts, ctx=ast.Load())
+    elif view is not None:
+        return None
     if isinstance(it, (ast.ListComp, ast.GeneratorExp)) \
             and len(it.generators) == 1 \
             and isinstance(it.elt, ast.Name) \
@@ -389,6 +406,10 @@ class Prov:
                 for t in n.targets:
                     if isinstance(t, ast.Name):
                         self.defs.setdefault(t.id, []).append(n)
+            elif isinstance(n, ast.NamedExpr) and isinstance(
+                    n.target, ast.Name):
+                # `(x := e)` binds like `x = e`
+                self.defs.setdefault(n.target.id, []).append(n)
 
     def reducer(self, call):
         f = call.func
@@ -447,6 +468,14 @@ class Prov:
         for v in self.expand(e):
             if v is not e:
                 out += self.forms(v, depth + 1)
+                continue
+            if isinstance(v, ast.NamedExpr):
+                out += self.forms(v.value, depth + 1)
+                continue
+            if isinstance(v, ast.IfExp):
+                # either branch may be the stored value
+                out += self.forms(v.body, depth + 1)
+                out += self.forms(v.orelse, depth + 1)
                 continue
             if self.is_stored(v):
                 out.append(("stored", None, v))
@@ -864,6 +893,82 @@ def r202(ctx, repo, wtable, wn):
 # ----------------------------------------------------------------------
 # R20.3
 
+def _is_cache_lookup(e):
+    """self._ufunc_attrs.get(K[, None]) or a load of self._ufunc_attrs[K]"""
+    if isinstance(e, ast.Call) and last_attr(e) == "get" and isinstance(
+            e.func, ast.Attribute) and is_self_attr(
+            e.func.value, "_ufunc_attrs") and e.args and (
+            len(e.args) == 1 or txt(e.args[1]) == "None"):
+        return e.args[0]
+    if isinstance(e, ast.Subscript) and isinstance(e.ctx, ast.Load) \
+            and is_self_attr(e.value, "_ufunc_attrs"):
+        return e.slice
+    return None
+
+
+def _cache_lookup_keys(f):
+    return [txt(_is_cache_lookup(n)) for n in walk(f)
+            if _is_cache_lookup(n) is not None]
+
+
+def _localise_cache(f, uname, cls):
+    """Bring a `_fetch_ufunc_attr` that reads the cache entry in place
+    (`if cache.get(k) is None: cache[k] = …; return cache[k]`) to the form
+    with a local: the entry is modelled by one variable that is read at the
+    top, re-bound by every store and read wherever the entry is read."""
+    has_local = any(isinstance(n, ast.Assign) and len(n.targets) == 1
+                    and isinstance(n.targets[0], ast.Name)
+                    and _is_cache_lookup(n.value) is not None
+                    for n in walk(f))
+    if has_local:
+        return f
+    new = _clone(f)
+    var = "cached__entry"
+
+    class T(ast.NodeTransformer):
+        def visit_FunctionDef(self, node):
+            if node is not new:
+                return node
+            self.generic_visit(node)
+            return node
+
+        def visit_Call(self, node):
+            self.generic_visit(node)
+            if _is_cache_lookup(node) is not None:
+                return ast.copy_location(ast.Name(id=var, ctx=ast.Load()),
+                                         node)
+            return node
+
+        def visit_Subscript(self, node):
+            self.generic_visit(node)
+            if _is_cache_lookup(node) is not None:
+                return ast.copy_location(ast.Name(id=var, ctx=ast.Load()),
+                                         node)
+            return node
+
+        def visit_Assign(self, node):
+            t = node.targets[0]
+            if len(node.targets) == 1 and isinstance(t, ast.Subscript) \
+                    and is_self_attr(t.value, "_ufunc_attrs"):
+                node.value = self.visit(node.value)
+                first = ast.copy_location(ast.Assign(
+                    targets=[ast.Name(id=var, ctx=ast.Store())],
+                    value=node.value), node)
+                node.value = ast.Name(id=var, ctx=ast.Load())
+                return [first, node]
+            self.generic_visit(node)
+            return node
+    T().visit(new)
+    head = ast.parse(f"{var} = self._ufunc_attrs.get({uname})").body[0]
+    ast.copy_location(head, f.body[0])
+    k = 1 if (new.body and isinstance(new.body[0], ast.Expr) and isinstance(
+        new.body[0].value, ast.Constant)) else 0
+    new.body.insert(k, head)
+    ast.fix_missing_locations(new)
+    _relink(new, cls)
+    return new
+
+
 def check_fetch(ctx, rel, cls, cname):
     """cached = cache.get(name); computed only when cached is None, from the
     object's own data; stored under the same name; every exit returns the
@@ -878,6 +983,8 @@ def check_fetch(ctx, rel, cls, cname):
     if len(params) != 3:
         raise AnalysisError(f"{cname}._fetch_ufunc_attr signature changed")
     _, uname, ufunc = params
+    keys = _cache_lookup_keys(f)
+    f = _localise_cache(f, uname, cls)
     cfg = CFG(f)
     assigns = [n for n in walk(f) if isinstance(n, ast.Assign)
                and len(n.targets) == 1
@@ -887,10 +994,10 @@ def check_fetch(ctx, rel, cls, cname):
               and isinstance(d.value.func, ast.Attribute)
               and is_self_attr(d.value.func.value, "_ufunc_attrs")
               and d.value.args]
-    if len(cached) != 1:
+    if len(cached) != 1 or not keys:
         raise AnalysisError(f"{cname}._fetch_ufunc_attr: cache lookup form")
     C = cached[0].targets[0].id
-    ok = txt(cached[0].value.args[0]) == uname
+    ok = all(k == uname for k in keys)
     ctx.ob("R20.3", ok, f"{cname}: the cached value is looked up under the "
            f"requested name" if ok else f"{cname}: the cache is not read "
            f"under `{uname}`", node=f, label="cache lookup by name")
@@ -1617,6 +1724,10 @@ MUTANTS = [
     ("copier overwrites stored summaries", CP,
      ("                        if attr not in dst.attrs:\n", 
       "                        if attr in dst.attrs:\n"), "R20.3"),
+    ("ChildScalar returns the entry of another name", HE,
+     ("            self._ufunc_attrs[uname] = val\n        return val\n",
+      "            self._ufunc_attrs[uname] = val\n"
+      '        return self._ufunc_attrs["min"]\n'), "R20.3"),
     ("H5ScalarEvent caches under a fixed name", EV,
      ("self._ufunc_attrs[uname] = val", 'self._ufunc_attrs["min"] = val'),
      "R20.3"),
@@ -1734,6 +1845,37 @@ TWINS = [
       "    @property\n    def shape(self):\n        return len(self),\n")),
     ("refresh re-creates the feature cache dictionary", HB,
      ("        self._events.clear()\n", "        self._events = {}\n")),
+    # round 2, batch 2
+    ("extrema update as one conditional expression with a walrus", WR,
+     ("                val_a = dset.attrs.get(uname, None)\n"
+      "                if val_a is not None:\n"
+      "                    val_b = ufunc(data)\n"
+      "                    val = ufunc([val_a, val_b])\n"
+      "                else:\n"
+      "                    val = ufunc(dset)\n"
+      "                dset.attrs[uname] = val\n",
+      "                dset.attrs[uname] = (\n"
+      "                    ufunc([val_a, ufunc(data)])\n"
+      "                    if (val_a := dset.attrs.get(uname)) is not None\n"
+      "                    else ufunc(dset))\n")),
+    ("copier table as a dict iterated with .items()", CP,
+     ('                    for ufunc, attr in [(np.nanmin, "min"),\n'
+      '                                        (np.nanmax, "max"),\n'
+      '                                        (np.nanmean, "mean"),\n'
+      "                                        ]:\n",
+      '                    summary_ufuncs = {"min": np.nanmin,\n'
+      '                                      "max": np.nanmax,\n'
+      '                                      "mean": np.nanmean}\n'
+      "                    for attr, ufunc in summary_ufuncs.items():\n")),
+    ("H5ScalarEvent lookup without a local", EV,
+     ("        val = self._ufunc_attrs.get(uname, None)\n"
+      "        if val is None:\n"
+      "            val = ufunc(self.__array__())\n"
+      "            self._ufunc_attrs[uname] = val\n"
+      "        return val\n",
+      "        if self._ufunc_attrs.get(uname) is None:\n"
+      "            self._ufunc_attrs[uname] = ufunc(self.__array__())\n"
+      "        return self._ufunc_attrs[uname]\n")),
 ]
 
 # mutants that re-introduce the repaired defects (apply to the fixed tree)
